@@ -6,6 +6,7 @@ import ast
 from pta import paths as P
 from pta.check import Spec
 from pta.model import AnalysisError
+from pta.pat import find, has, th, tfind, kwarg
 from pta.rules.common import CGM, short
 
 LC = "pytato.target.loopy.codegen"
@@ -43,7 +44,8 @@ def r_depends(c):
         # the result carries depends_on as given to its constructor
         init = m.resolve_method(q, "__init__")
         if init is not None and init[0] == q:
-            c.check("self.depends_on = depends_on" in ast.unparse(init[1]), "R07-DEPENDS",
+            c.check(any(e["$a"] in [x.arg for x in init[1].args.args]
+                        for e in find(init[1], "$s.depends_on = $a")), "R07-DEPENDS",
                     f"{short(q)}.__init__", "stores-depends_on", m.loc(ci.module, init[1]),
                     "the result does not keep the dependencies it was created with")
         else:
@@ -82,13 +84,12 @@ def r_depends(c):
     # consumers hand the context's dependencies to the instruction they create
     for fn in ("add_store",):
         fd = m.func(f"{LC}.{fn}")
-        ctxs = [s for s in ast.walk(fd) if isinstance(s, ast.Assign)
-                and "PersistentExpressionContext(state)" in ast.unparse(s.value)]
+        ctxs = find(fd, "$cv = PersistentExpressionContext($st)")
         if len(ctxs) != 1:
             raise AnalysisError(f"anchor vanished: expression context in {fn}")
-        cv = ctxs[0].targets[0].id
-        src = ast.unparse(fd)
-        ok = f"result.to_loopy_expression(result_indices, {cv})" in src and any(
+        cv = ctxs[0]["$cv"]
+        res = fd.args.args[3].arg if len(fd.args.args) > 3 else "?"
+        ok = has(fd, f"{res}.to_loopy_expression($$_, {cv})") and any(
             isinstance(x, ast.Call) and ast.unparse(x.func).endswith("make_assignment")
             and any(k.arg == "depends_on" and ast.unparse(k.value) == f"{cv}.depends_on"
                     for k in x.keywords) for x in ast.walk(fd))
@@ -97,7 +98,9 @@ def r_depends(c):
                 "by the same context that generated its right-hand side")
     # PersistentExpressionContext.update_depends_on accumulates (union)
     ud = m.func(LC + ".PersistentExpressionContext.update_depends_on")
-    c.check("self._depends_on | other" in ast.unparse(ud) or "|=" in ast.unparse(ud),
+    c.check(has(ud, "$s._depends_on = $s._depends_on | $o")
+            or has(ud, "$s._depends_on = $o | $s._depends_on")
+            or has(ud, "$s._depends_on |= $o"),
             "R07-DEPENDS", "PersistentExpressionContext.update_depends_on", "accumulates",
             m.loc(LC, ud), "dependencies are replaced instead of accumulated")
 
@@ -107,22 +110,34 @@ def r_strategy(c):
     fd = m.func(CGM + ".map_index_lambda")
     where = m.loc(LC, fd)
     # the one generated expression
-    base = [s for s in ast.walk(fd) if isinstance(s, (ast.Assign, ast.AnnAssign))
-            and s.value is not None and isinstance(s.value, ast.Call)
-            and ast.unparse(s.value.func) == "InlinedResult"
-            and s.value.args and ast.unparse(s.value.args[0]) == "loopy_expr"]
-    c.check(len(base) == 1 and ast.unparse(base[0].value.args[0]) == "loopy_expr"
-            and "prstnt_ctx.depends_on" in ast.unparse(base[0].value), "R07-STRATEGY",
+    # <ctx> = PersistentExpressionContext(state); <le> = self.exprgen_mapper(expr.expr, <ctx>, ..)
+    # <result> = InlinedResult(<le>, .., <ctx>.depends_on)
+    gen = find(fd, "$le = $s.exprgen_mapper($il, $ctx, $$_)")
+    pctx = {e["$cv"] for e in find(fd, "$cv = PersistentExpressionContext($st)")}
+    base = [e for e in find(fd, "$rv = InlinedResult($le, $$_, $ctx.depends_on)")
+            if any(g["$le"] == e["$le"] and g["$ctx"] == e["$ctx"] and g["$ctx"] in pctx
+                   for g in gen)]
+    c.check(len(base) == 1, "R07-STRATEGY",
             "CodeGenMapper.map_index_lambda", "one-generated-expression", where,
             "there is not exactly one InlinedResult(loopy_expr, ..., depends_on of the "
             "generating context) the strategies start from")
     if len(base) != 1:
         return
-    rv = (base[0].targets[0] if isinstance(base[0], ast.Assign) else base[0].target).id
+    rv = base[0]["$rv"]
     # the strategy chain: if / elif ... else
+    # store_result is decided by the stored tag or by necessity only
+    sr = find(fd, "$sr = $$a or $$b or $e.tags_of_type(ImplStored)") \
+        + find(fd, "$sr = $$a or $e.tags_of_type(ImplStored)") \
+        + find(fd, "$sr = $e.tags_of_type(ImplStored) or $$a") \
+        + find(fd, "$sr = bool($e.tags_of_type(ImplStored))")
+    sr = [e for e in sr if e["$e"] == fd.args.args[1].arg]
+    c.check(len(sr) == 1,
+            "R07-STRATEGY", "CodeGenMapper.map_index_lambda", "stored-iff-tag-or-needed",
+            where, "storing is no longer triggered by the ImplStored tag")
+    srv = sr[0]["$sr"] if sr else "store_result"
     chain = None
     for iff in ast.walk(fd):
-        if isinstance(iff, ast.If) and ast.unparse(iff.test) == "store_result":
+        if isinstance(iff, ast.If) and ast.unparse(iff.test) == srv:
             chain = iff
     if chain is None:
         raise AnalysisError("anchor vanished: implementation strategy chain")
@@ -162,23 +177,17 @@ def r_strategy(c):
                  f"{inst}:keeps-inlined-result", where)
         seen.add(test)
     # after the chain the result is cached and returned
-    tail = ast.unparse(fd)
-    c.check(f"state.results[expr] = {rv}" in tail and tail.rstrip().endswith(f"return {rv}"),
+    ep, sp = fd.args.args[1].arg, fd.args.args[2].arg
+    c.check(has(fd, f"{sp}.results[{ep}] = {rv}") and isinstance(fd.body[-1], ast.Return)
+            and ast.unparse(fd.body[-1].value) == rv,
             "R07-STRATEGY", "CodeGenMapper.map_index_lambda", "result-cached-and-returned",
             where, "the implemented result is not recorded in state.results and returned")
     for need in ("ImplInlined", "ImplSubstitution"):
         c.check(any(need in t for t, _b in arms), "R07-STRATEGY",
                 "CodeGenMapper.map_index_lambda", f"handles:{need}", where,
                 f"no branch for {need}")
-    # store_result is decided by the stored tag or by necessity only
-    sr = [s for s in ast.walk(fd) if isinstance(s, ast.Assign)
-          and ast.unparse(s.targets[0]) == "store_result"]
-    c.check(len(sr) == 1 and "expr.tags_of_type(ImplStored)" in ast.unparse(sr[0].value),
-            "R07-STRATEGY", "CodeGenMapper.map_index_lambda", "stored-iff-tag-or-needed",
-            where, "storing is no longer triggered by the ImplStored tag")
     # the result of a named entry is looked up under the container's own entry,
     # not under the (possibly tagged) NamedArray object at hand
-    from pta.pat import has
     na = m.func(CGM + ".map_named_array")
     ep, sp = na.args.args[1].arg, na.args.args[2].arg
     c.check(has(na, f"{sp}.results[{ep}._container[{ep}.name]]"), "R07-STRATEGY",
@@ -189,9 +198,11 @@ def r_strategy(c):
             "generation succeeds)")
     # outputs: ImplStored stripped (no redundant store/load), inputs untouched
     g = m.func(LC + ".generate_loopy")
-    gs = ast.unparse(g)
-    c.check("output.without_tags(ImplStored(), verify_existence=False)" in gs
-            and "isinstance(output, InputArgumentBase)" in gs, "R07-STRATEGY",
+    strip = find(g, "$o.without_tags(ImplStored(), verify_existence=False)"
+                    " if not isinstance($o, InputArgumentBase) else $o") \
+        + find(g, "$o if isinstance($o, InputArgumentBase) else "
+                  "$o.without_tags(ImplStored(), verify_existence=False)")
+    c.check(len(strip) == 1, "R07-STRATEGY",
             "generate_loopy", "stored-tag-stripped-from-outputs", m.loc(LC, g),
             "ImplStored is no longer stripped from (non-input) outputs")
 
@@ -287,8 +298,9 @@ def r_tagapi(c):
                 m.loc(ci.module, fd if fd is not None else ci.node),
                 "_with_new_tags does more than replace the tags field")
     wa = m.func("pytato.array.Array.with_tagged_axis")
-    c.check("self.copy(axes=(*self.axes[:iaxis], new_axis, *self.axes[iaxis + 1:]))"
-            in ast.unparse(wa), "R07-TAGAPI", "Array.with_tagged_axis",
+    c.check(th(wa, "self.copy(axes=(*self.axes[:iaxis], new_axis, *self.axes[iaxis + 1:]))")
+            and th(wa, "new_axis = self.axes[iaxis].tagged(tags)"),
+            "R07-TAGAPI", "Array.with_tagged_axis",
             "replaces-only-that-axis", m.loc(m.module_of(wa), wa),
             "with_tagged_axis does not rebuild the axes tuple with exactly one axis "
             "replaced")
